@@ -63,3 +63,27 @@ def lemma_multipitch_perfect(tp: Arr(Real, None), n_ref: Arr(Int, None)):
     sum_zero(array_of(n, lambda i: max(n_ref[i], n_ref[i]) - tp[i]))
     es, em, ef, et = compute_err_score(tp, n_ref, n_ref)
     ensures(P == 1, R == 1, A == 1, es == 0, em == 0, ef == 0, et == 0, label='perfect')
+
+
+# ----------------------------------------------------------------------------- validate (frames are opaque: `frame_ok(f)` is what
+# util.validate_frequencies(f, 5000, 20, allow_negatives=False) accepts, proved separately on real arrays in contracts/events.py)
+frame_ok = uninterpreted('frame_ok', ['ObjT'], 'Bool')
+
+
+def valid_times(t):
+    return forall(0, length(t), lambda i: t[i] <= 30000.0) and forall(0, length(t) - 1, lambda i: t[i] <= t[i + 1])
+
+
+@assumed_contract("mir_eval.util.validate_frequencies", view=True, props="C14", note="opaque-frame view of the contract proved in contracts/events.py")
+def validate_frame(frequencies: ObjT, max_freq: Real, min_freq: Real, allow_negatives: Bool = False):
+    raises(ValueError, when=not frame_ok(frequencies))
+
+
+@contract("mir_eval.multipitch.validate", props="C14")
+def mp_validate(ref_time: Arr(Real, None), ref_freqs: Lst(ObjT), est_time: Arr(Real, None), est_freqs: Lst(ObjT)):
+    raises(ValueError, when=not (valid_times(ref_time) and valid_times(est_time) and length(ref_time) == length(ref_freqs)
+                                 and length(est_time) == length(est_freqs)
+                                 and forall(0, length(ref_freqs), lambda i: frame_ok(ref_freqs[i]))
+                                 and forall(0, length(est_freqs), lambda i: frame_ok(est_freqs[i]))), props="C14")
+    invariant(lambda: forall(0, loop_index(0), lambda k: frame_ok(ref_freqs[k])), loop=0, label='ref-frames-ok')
+    invariant(lambda: forall(0, loop_index(1), lambda k: frame_ok(est_freqs[k])), loop=1, label='est-frames-ok')
